@@ -4,9 +4,14 @@
 (* decompositions.                                                         *)
 (*                                                                         *)
 (* A text is a sequence of code points (Int).  The modified combining      *)
-(* class of a code point is an INPUT (constant MccPairs, dumped from       *)
-(* allsorts' public unicode::mcc::modified_combining_class): C17 does not  *)
-(* constrain the values of that table, only what is done with them.        *)
+(* class of a code point is read from MccPairs, dumped from allsorts'      *)
+(* public unicode::mcc::modified_combining_class.  The VALUES of that      *)
+(* table are specified in ModifiedCcc.tla and compared with allsorts' by   *)
+(* MC_ModifiedCcc + `c17_preprocess classes` (violation key                *)
+(* mcc|ccc=n|want=a|got=b); this module states what is done with them and  *)
+(* deliberately keeps evaluating its clauses with allsorts' own table, so  *)
+(* that a wrong table value is reported once, as a table difference, and   *)
+(* not a second time as thousands of reordering mismatches.                *)
 (* A character is a MARK iff its modified class is not 0 (NotReordered),   *)
 (* everything else is a BASE for the purpose of this property.             *)
 (*                                                                         *)
@@ -45,7 +50,7 @@ EXTENDS Integers, Sequences, FiniteSets, FiniteSetsExt, TLC, Json, IOUtils
 MccPairs == JsonDeserialize(IOEnv.C17_MCC)
 
 ---------------------------------------------------------------------------
-\* ---- the class table (input) ------------------------------------------------
+\* ---- the class table (read from allsorts; constrained by ModifiedCcc.tla) ------
 MccFn == [c \in {MccPairs[i][1] : i \in DOMAIN MccPairs} |->
             LET i == CHOOSE i \in DOMAIN MccPairs : MccPairs[i][1] = c IN MccPairs[i][2]]
 MarkSet   == DOMAIN MccFn
